@@ -138,7 +138,7 @@ def run(module, cfg_text=None, cfg_path=None, workers=None, dump=False, coverage
             shutil.copy(os.path.join(SPEC_DIR, module + ".cfg"), cfg)
         if workers is None:
             workers = 8
-        cmd = ["java", "-XX:+UseParallelGC", "-Xmx6g"]
+        cmd = ["java", "-XX:+UseParallelGC", "-Xmx6g", "-Xss64m"]
         if deque:
             cmd.append("-Dtlc2.tool.queue.IStateQueue=StateDeque")
         cmd += ["-cp", JAR, "tlc2.TLC", "-workers", str(workers), "-metadir", os.path.join(scratch, "meta"),
@@ -268,3 +268,20 @@ def sany(module_path):
     ok = proc.returncode == 0 and "Semantic errors" not in proc.stdout and "Parse Error" not in proc.stdout \
         and "*** Errors" not in proc.stdout
     return ok, proc.stdout + proc.stderr
+
+
+def wrap(base, consts, name=None, extends=()):
+    """Model-checking wrapper module: cfg files cannot hold tuples/records, so every constant is defined in a
+    generated module MC<base> and substituted with `K <- MC_K`.  Returns (module name, module text, cfg lines)."""
+    name = name or ("MC" + base)
+    lines = [f"---- MODULE {name} ----", "EXTENDS " + ", ".join([base] + list(extends))]
+    cfg = ["CONSTANTS"]
+    for k, v in consts.items():
+        lines.append(f"MC_{k} == {v if isinstance(v, RawTla) else tla_const(v)}")
+        cfg.append(f" {k} <- MC_{k}")
+    lines.append("====")
+    return name, "\n".join(lines) + "\n", "\n".join(cfg) + "\n"
+
+
+class RawTla(str):
+    """A TLA+ expression given verbatim."""
